@@ -19,6 +19,15 @@ type GenCase struct {
 
 var genAvoid map[string]bool
 
+// drawGenRelaxed is drawGen with G widened beyond the documented grammar (only for properties over accepted inputs).
+func drawGenRelaxed(t *rapid.T, kind string, depth int) GenCase {
+	g := gen.New(t, depth, genAvoid)
+	g.Relaxed = true
+	s := gen.Draw(g, kind)
+	ps, tail := gen.Render(t, s.W, gen.RenderOpts{})
+	return GenCase{S: s, Pieces: ps, Tail: tail, Text: gen.Text(ps, tail)}
+}
+
 // drawGen draws a sentence of the given kind ("" = any) and renders it.
 func drawGen(t *rapid.T, kind string, depth int) GenCase {
 	g := gen.New(t, depth, genAvoid)
